@@ -17,7 +17,7 @@ type bw struct {
 
 func builderWrites(fn *ssa.Function) []bw {
 	var out []bw
-	for _, b := range fn.Blocks {
+	for _, b := range an.ScanBlocks(fn) {
 		for _, ins := range b.Instrs {
 			call, ok := ins.(*ssa.Call)
 			if !ok {
@@ -165,7 +165,7 @@ func c18(c *an.Check) {
 	okRec := false
 	hc := an.Calls(build, cHashCtx)
 	if len(hc) == 1 && an.IsParam(hc[0].Call.Args[0], 1) {
-		for _, b := range build.Blocks {
+		for _, b := range an.ScanBlocks(build) {
 			for _, ins := range b.Instrs {
 				if st, ok := ins.(*ssa.Store); ok {
 					if f := an.FieldOfAddr(st.Addr); f != nil && f.Name() == "ContextHash" && st.Val == ssa.Value(hc[0]) {
@@ -181,7 +181,7 @@ func c18(c *an.Check) {
 	var kdf *ssa.Function
 	if de := one(pkgFuncsWhere(p, "envelope", func(f *ssa.Function) bool { return f.Name() == cDeriveEnc.Name })); de != nil {
 		// the context builder it calls
-		for _, b := range de.Blocks {
+		for _, b := range an.ScanBlocks(de) {
 			for _, ins := range b.Instrs {
 				if call, ok := ins.(*ssa.Call); ok {
 					if f, ok := call.Call.Value.(*ssa.Function); ok && f.Pkg == de.Pkg && len(builderWrites(f)) > 0 {
@@ -222,7 +222,7 @@ func c18(c *an.Check) {
 	decryptInputUntouched(c)
 	// de-duplication key (Recover's precondition)
 	var seenLook []*ssa.Lookup
-	for _, b := range unlock.Blocks {
+	for _, b := range an.ScanBlocks(unlock) {
 		for _, ins := range b.Instrs {
 			if x, ok := ins.(*ssa.Lookup); ok && x.CommaOk {
 				if _, isMake := x.X.(*ssa.MakeMap); isMake {
